@@ -22,7 +22,8 @@ Record robs := mkRO {
   ro_in_ctx : list (Z * Z);           (* tree inputs: (depth, expansions) of the root's stored synthesis context *)
   ro_changed : list nat;              (* earlier genotypes whose deep snapshot differs after the operation *)
   ro_alts_before : list (nat * list nat);
-  ro_alts_after : list (nat * list nat)
+  ro_alts_after : list (nat * list nat);
+  ro_grammar_same : bool              (* every analysis result of the Grammar object (productions, symbol sets, distances, recursive set) is as before *)
 }.
 
 Inductive repcase := KRep (d : decl) (rk : rkind) (op : ropc) (tape : list draw) (o : robs).
@@ -236,7 +237,34 @@ Definition c07_ok (c : repcase) : bool :=
 Definition c09_ok (c : repcase) : bool :=
   match c with KRep _ _ _ _ o => match ro_changed o with [] => true | _ => false end end.
 Definition c10r_ok (c : repcase) : bool :=
-  match c with KRep _ _ _ _ o => alts_obs_eqb (ro_alts_before o) (ro_alts_after o) end.
+  match c with KRep _ _ _ _ o => alts_obs_eqb (ro_alts_before o) (ro_alts_after o) && ro_grammar_same o end.
+
+(* ---------- C01 on the outputs of every representation: a program handed out is well typed ---------- *)
+Definition out_programs (rk : rkind) (o : rout) : list value :=
+  match o with
+  | OPheno v _ => [v]
+  | OGeno (GTree v) => [v]
+  | OGenos (GTree a) (GTree b) => [a; b]
+  | _ => []
+  end.
+Definition c01r_ok (c : repcase) : bool :=
+  match c with
+  | KRep d rk op _ o =>
+      match obs_grammar d, ro_res o with
+      | Some g, POk out => forallb (fun v => wtb (g_decl g) (g_reg g) false (wt_fuel v) (TSym (d_start d)) v) (out_programs rk out)
+      | _, _ => true
+      end
+  end.
+(* known finding F03: the stack representation builds tuple / refined / list-of-refined fields from whatever is on the stack *)
+Fixpoint plain_ty (t : ty) : bool :=
+  match t with TBase _ | TSym _ => true | TList t' => plain_ty t' | _ => false end.
+Definition f03_region (c : repcase) : bool :=
+  match c with
+  | KRep d (RStack _) (RMap _) _ _ => negb (forallb (fun cl => forallb plain_ty (c_fields cl)) (d_classes d))
+  | _ => false
+  end.
+Definition run_c01r (cases : list repcase) : list N * list N * list N :=
+  (failing rep_corr cases, failing (fun c => c01r_ok c || f03_region c) cases, failing (fun c => c01r_ok c || negb (f03_region c)) cases).
 
 Definition run_c06 (cases : list repcase) : list N * list N * list N :=
   (failing rep_corr cases, failing (fun c => c06_ok c || f13_region c) cases, failing (fun c => c06_ok c || negb (f13_region c)) cases).
